@@ -6,6 +6,7 @@
   implementation's pulse function separately).  `Gen.segTooShort` is regenerated from the source.
 -/
 import BB.Proofs.Forge
+import BB.Proofs.G1Flat
 import Mathlib.Tactic.FieldSimp
 import Mathlib.Tactic.Ring
 
@@ -153,5 +154,253 @@ example : (forgeBP exampleBP).toOption.map (fun f => (f.N, f.blocks.map Blk.len)
   decide +kernel
 
 example : forgeBP { exampleBP with SR := .num (1/2) } = .error .segdur := by decide +kernel
+
+/-! ### newdurations, Element.getArrays, evaluated blocks and the flat sample list (audit round) -/
+
+/-- internal: the shape of a successful forge with the counts spelled out -/
+theorem forge_counts (b : BP) (f : Forged) (h : forgeBP b = .ok f) :
+    ∃ sr durs, b.SR = .num sr ∧ b.resolveWaits = .ok durs ∧ durs.length = b.segs.length ∧
+      (∀ d ∈ durs, 2 ≤ rhe (d * sr)) ∧
+      f = assemble b sr (durs.map (fun d => (rhe (d * sr)).toNat)) := by
+  obtain ⟨sr, durs, ns, hsr, hd, hn, _, rfl⟩ := (forge_ok_iff b f).mp h
+  obtain ⟨h2, hns⟩ := countsGo_ok sr durs ns hn
+  exact ⟨sr, durs, hsr, hd, resolveGo_length _ _ _ hd, h2, by rw [hns]; rfl⟩
+
+/-- The `newdurations` output: entry `i` is the *rounded* duration `round(d_i·SR)/SR` of segment `i`
+    (`d_i` the resolved duration: the stored one, or `t - elapsed` for a waituntil), which is also
+    block `i`'s sample count over the sample rate; there is one entry per segment, and the entries
+    add up to `N/SR` - the end point handed to `linspace` for the time axis. -/
+theorem newdurations_spec (b : BP) (f : Forged) (h : forgeBP b = .ok f) :
+    ∃ sr durs, b.SR = .num sr ∧ b.resolveWaits = .ok durs ∧ f.SR = sr ∧
+      f.newdurations = durs.map (fun d => ((rhe (d * sr) : ℤ) : ℚ) / sr) ∧
+      f.newdurations.length = b.segs.length ∧
+      f.newdurations = f.blocks.map (fun blk => ((blk.len : ℤ) : ℚ) / f.SR) ∧
+      sumR f.newdurations = ((f.N : ℕ) : ℚ) / f.SR := by
+  obtain ⟨sr, durs, hsr, hd, hlen, h2, rfl⟩ := forge_counts b f h
+  have hnl : (durs.map (fun d => (rhe (d * sr)).toNat)).length = b.segs.length := by simp [hlen]
+  refine ⟨sr, durs, hsr, hd, rfl, ?_, by simp [assemble, hlen], ?_, ?_⟩
+  · simp only [assemble, List.map_map]
+    apply List.map_congr_left
+    intro d hd'
+    have := h2 d hd'
+    simp only [Function.comp]
+    rw [Int.toNat_of_nonneg (by omega)]
+  · simp only [assemble]
+    have hl := mkBlocks_lens sr b.segs _ hnl
+    conv_lhs => rw [← hl]
+    simp only [List.map_map, Function.comp_def]
+  · simp only [assemble]
+    exact sumR_counts_div _ sr
+
+/-- entry-wise form of `newdurations_spec`: `newdurations[i] = n_i / SR` with `n_i` the length of
+    block `i` -/
+theorem newdurations_getElem (b : BP) (f : Forged) (h : forgeBP b = .ok f) (i : Nat)
+    (hi : i < f.newdurations.length) :
+    ∃ hb : i < f.blocks.length, f.newdurations[i] = ((f.blocks[i].len : ℤ) : ℚ) / f.SR := by
+  obtain ⟨_, _, _, _, _, _, _, hmap, _⟩ := newdurations_spec b f h
+  have hb : i < f.blocks.length := by rw [hmap] at hi; simpa using hi
+  refine ⟨hb, ?_⟩
+  have : f.newdurations[i] = (f.blocks.map (fun blk => ((blk.len : ℤ) : ℚ) / f.SR))[i]'(by simpa using hb) := by
+    congr 1
+  rw [this, List.getElem_map]
+
+example : (forgeBP exampleBP).toOption.map (fun f => f.newdurations) = some [12/5, 13/5, 3/2] := by
+  decide +kernel
+
+/-- `Element.getArrays` hands out, for every blueprint channel, exactly `forgeBP` of the stored
+    blueprint (with the channel's flags), channel by channel in the element's channel order. -/
+theorem getArrays_delivers_forge (e : Element) (t : Bool) (out : Dict Chan Element.ChOut)
+    (h : e.getArrays t = .ok out) :
+    out.length = e.chans.length ∧
+    ∀ i (hi : i < e.chans.length) (ho : i < out.length) (b : BP), e.chans[i].2.data = .bp b →
+      ∃ f, forgeBP b = .ok f ∧ out[i] = (e.chans[i].1, Element.ChOut.forged f e.chans[i].2.flags t) := by
+  unfold Element.getArrays at h
+  refine ⟨mapM_ok_length _ _ _ h, ?_⟩
+  intro i hi ho b hb
+  have := mapM_ok_getElem _ _ _ h i hi ho
+  simp only [Element.chanOut, hb] at this
+  cases hf : forgeBP b with
+  | error er => simp [hf, Except.map] at this
+  | ok f =>
+    refine ⟨f, rfl, ?_⟩
+    simp only [hf, Except.map, Except.ok.injEq] at this
+    exact this.symm
+
+/-- helper for the next theorem: one failing element makes `mapM` fail -/
+theorem mapM_error_of_mem {α β : Type} (f : α → Except Err β) (l : List α) (x : α) (hx : x ∈ l) (er : Err)
+    (h : f x = .error er) : ∃ er', l.mapM f = .error er' := by
+  induction l with
+  | nil => simp at hx
+  | cons a t ih =>
+    rw [mapM_cons_eq]
+    cases hfa : f a with
+    | error e => exact ⟨e, rfl⟩
+    | ok y =>
+      simp only [List.mem_cons] at hx
+      rcases hx with rfl | hx
+      · rw [h] at hfa; cases hfa
+      · obtain ⟨er', h'⟩ := ih hx
+        exact ⟨er', by simp [h']⟩
+
+/-- ... and when a blueprint channel does not forge, `getArrays` raises: no channel is dropped. -/
+theorem getArrays_fails_if_forge_fails (e : Element) (t : Bool) (ch : Chan) (ent : ChEntry) (b : BP)
+    (hmem : (ch, ent) ∈ e.chans) (hb : ent.data = .bp b) (er : Err) (hf : forgeBP b = .error er) :
+    ∃ er', e.getArrays t = .error er' := by
+  unfold Element.getArrays
+  apply mapM_error_of_mem _ _ (ch, ent) hmem er
+  simp [Element.chanOut, hb, hf, Except.map]
+
+/-- the element used below: one blueprint channel -/
+def exampleEl : Element := (({} : Element).addBluePrint (.int 1) exampleBP).st
+
+example : (exampleEl.getArrays true).toOption.map (fun out => out.map (fun p => (p.1, match p.2 with
+      | .forged f _ t => (f.N, t) | _ => (0, false)))) = some [(.int 1, (65, true))] := by
+  decide +kernel
+
+/-- A block evaluates to as many samples as it is long (`Blk.eval?` is the model's exact evaluator
+    for ramps, zeros and raw arrays). -/
+theorem eval_length (b : BP) (f : Forged) (_h : forgeBP b = .ok f) (blk : Blk) (_hm : blk ∈ f.blocks)
+    (xs : List ℚ) (he : blk.eval? = some xs) : xs.length = blk.len :=
+  Blk.evalLength blk xs he
+
+/-- A waituntil segment's block evaluates to zeros only (as many as the block is long). -/
+theorem wait_block_evaluates_to_zeros (b : BP) (f : Forged) (h : forgeBP b = .ok f) (i : Nat)
+    (hi : i < b.segs.length) (hw : b.segs[i].fn.isWait = true) :
+    ∃ hb : i < f.blocks.length, f.blocks[i].eval? = some (List.replicate f.blocks[i].len 0) := by
+  obtain ⟨sr, durs, _, _, hd, hb, hblk⟩ := block_is_own_pulse b f h i hi
+  refine ⟨hb, ?_⟩
+  rw [hblk, forgeFn_wait _ hw]
+  exact Blk.evalZeros _ _ _ _ rfl
+
+/-- A ramp segment's block (shape `ramp`, two numeric arguments) evaluates to the generated
+    `PulseAtoms.ramp` kernel on its own `n_i` points `k = 0..n_i-1`, at the blueprint's sample rate:
+    the pulse function is evaluated from its own local time zero. -/
+theorem ramp_block_evaluates_to_ramp (b : BP) (f : Forged) (h : forgeBP b = .ok f) (i : Nat)
+    (hi : i < b.segs.length) (hw : b.segs[i].fn.isWait = false) (hs : b.segs[i].fn.shape = .ramp)
+    (a c : ℚ) (ha : b.segs[i].args = [.num a, .num c]) :
+    ∃ hb : i < f.blocks.length, f.blocks[i].eval? =
+      some ((List.range f.blocks[i].len).map
+        (fun k => Gen.ramp a c f.SR ((f.blocks[i].len : ℤ) : ℚ) k)) := by
+  obtain ⟨sr, durs, hsr, _, hd, hb, hblk⟩ := block_is_own_pulse b f h i hi
+  obtain ⟨sr', _, hsr', _, _, _, _, _, _, _, _, _, hfs⟩ := forge_structure b f h
+  have : sr' = sr := by rw [hsr] at hsr'; cases hsr'; rfl
+  subst this
+  refine ⟨hb, ?_⟩
+  rw [hblk, forgeFn_nonwait _ hw, ha, hfs]
+  exact Blk.evalRamp _ _ _ _ _ hs
+
+/-- the generated ramp kernel in closed form: sample `k` of `n` is `a + (c - a)·k/n`; in particular
+    the first sample is the start value -/
+theorem ramp_closed_form (a c sr n : ℚ) (k : Nat) (hsr : sr ≠ 0) (hn : n ≠ 0) :
+    Gen.ramp a c sr n k = a + (c - a) * (k : ℚ) / n := by
+  unfold Gen.ramp
+  simp only [sub_zero, zero_add]
+  push_cast
+  field_simp
+  ring
+
+/-- **The flat waveform.**  When all blocks can be evaluated, the waveform `f.flat?` is the
+    in-order concatenation of the evaluated blocks: it has `N` samples, there is one evaluated block
+    per segment, and sample `j` of block `i` sits at index `start_i + j`, where `start_i` is the sum
+    of the sample counts of the earlier blocks (`starts`, the same cumulative sums the marker code
+    uses). -/
+theorem flat_spec (b : BP) (f : Forged) (h : forgeBP b = .ok f) (w : List ℚ) (hw : f.flat? = some w) :
+    w.length = f.N ∧
+    ∃ xss, evalBlocks f.blocks = some xss ∧ w = xss.flatten ∧ xss.length = b.segs.length ∧
+      ∀ i (hi : i < xss.length), ∃ (hb : i < f.blocks.length),
+        f.blocks[i].eval? = some xss[i] ∧ xss[i].length = f.blocks[i].len ∧
+        ∀ j (hj : j < xss[i].length),
+          ∃ (hs : i < (starts (f.blocks.map Blk.len) 0).length)
+            (hk : (starts (f.blocks.map Blk.len) 0)[i] + j < w.length),
+            w[(starts (f.blocks.map Blk.len) 0)[i] + j] = xss[i][j] := by
+  obtain ⟨_, _, _, _, _, _, hbl, _, _, _, _, hsum, _⟩ := forge_structure b f h
+  unfold Forged.flat? at hw
+  cases hx : evalBlocks f.blocks with
+  | none => simp [hx] at hw
+  | some xss =>
+    simp only [hx, Option.map_some, Option.some.injEq] at hw
+    subst hw
+    obtain ⟨hl, hget⟩ := evalBlocks_some _ _ hx
+    have hlens := evalBlocks_lengths _ _ hx
+    refine ⟨by rw [sumN_map_length_flatten, hlens, hsum], xss, rfl, rfl, by rw [hl, hbl], ?_⟩
+    intro i hi
+    have hb : i < f.blocks.length := by omega
+    refine ⟨hb, hget i hb hi, Blk.evalLength _ _ (hget i hb hi), ?_⟩
+    intro j hj
+    have hs : i < (starts (f.blocks.map Blk.len) 0).length := by rw [starts_length]; simpa using hb
+    obtain ⟨hk, he⟩ := flatten_getElem_offset xss i hi j hj
+    have hst : (starts (f.blocks.map Blk.len) 0)[i] = sumN ((xss.map List.length).take i) := by
+      rw [starts_getElem, hlens]; simp
+    refine ⟨hs, by rw [hst]; exact hk, ?_⟩
+    simp only [hst]
+    exact he
+
+/-- The flat waveform exists whenever every segment is one the model can evaluate: a waituntil, or
+    a ramp with two numeric arguments (any mix, any number, any order). -/
+theorem flat_exists (b : BP) (f : Forged) (h : forgeBP b = .ok f)
+    (hev : ∀ s ∈ b.segs, s.fn.isWait = true ∨
+      (s.fn.isWait = false ∧ s.fn.shape = .ramp ∧ ∃ a c, s.args = [.num a, .num c])) :
+    ∃ w, f.flat? = some w := by
+  have : (evalBlocks f.blocks).isSome = true := by
+    apply evalBlocks_isSome
+    intro blk hblk
+    obtain ⟨i, hi, rfl⟩ := List.getElem_of_mem hblk
+    obtain ⟨_, _, _, _, _, _, hbl, _⟩ := forge_structure b f h
+    have hi' : i < b.segs.length := by omega
+    rcases hev b.segs[i] (List.getElem_mem _) with hw | ⟨hw, hs, a, c, ha⟩
+    · obtain ⟨_, he⟩ := wait_block_evaluates_to_zeros b f h i hi' hw
+      simp [he]
+    · obtain ⟨_, he⟩ := ramp_block_evaluates_to_ramp b f h i hi' hw hs a c ha
+      simp [he]
+  unfold Forged.flat?
+  cases hx : evalBlocks f.blocks with
+  | none => simp [hx] at this
+  | some xss => exact ⟨_, rfl⟩
+
+example : ∀ s ∈ exampleBP.segs, s.fn.isWait = true ∨
+    (s.fn.isWait = false ∧ s.fn.shape = .ramp ∧ ∃ a c, s.args = [.num a, .num c]) := by
+  intro s hs
+  simp only [exampleBP, List.mem_cons, List.not_mem_nil, or_false] at hs
+  rcases hs with rfl | rfl | rfl
+  · right; exact ⟨by decide, rfl, 0, 1, rfl⟩
+  · left; decide
+  · right; exact ⟨by decide, rfl, 1, 0, rfl⟩
+
+example : ((forgeBP exampleBP).toOption.bind Forged.flat?).map
+      (fun w => (w.length, w[23]?, w[24]?, w[49]?, w[50]?)) =
+    some (65, some (23/24), some 0, some 0, some 1) := by
+  decide +kernel
+
+/-- helper for `nonempty_two_per_segment`: counts of at least two add up to at least `2·len` -/
+theorem two_per_count (sr : ℚ) (durs : List ℚ) (h2 : ∀ d ∈ durs, 2 ≤ rhe (d * sr)) :
+    2 * durs.length ≤ sumN (durs.map (fun d => (rhe (d * sr)).toNat)) := by
+  induction durs with
+  | nil => simp [sumN]
+  | cons d ds ih =>
+    have hd := h2 d (by simp)
+    have := ih (fun x hx => h2 x (by simp [hx]))
+    simp only [List.map_cons, sumN, List.length_cons]
+    have : 2 ≤ (rhe (d * sr)).toNat := by omega
+    omega
+
+/-- A non-empty blueprint forges to at least two samples per segment, so the marker code's
+    `argmin` over the time axis is never taken over an empty array.  (For the *empty* blueprint
+    with an absolute marker the model's `nearestIdx 0 _ = 0` returns `ok` where numpy's `argmin`
+    raises; `Element.addBluePrint` refuses empty blueprints, so `Element.getArrays` never gets
+    there - see the examples below.) -/
+theorem nonempty_two_per_segment (b : BP) (f : Forged) (h : forgeBP b = .ok f) :
+    2 * b.segs.length ≤ f.N := by
+  obtain ⟨sr, durs, _, _, hlen, h2, rfl⟩ := forge_counts b f h
+  simp only [assemble]
+  rw [← hlen]
+  exact two_per_count sr durs h2
+
+/-- model deviation (documented, not reachable through `Element`): the empty blueprint with an
+    absolute marker forges in the model -/
+example : (forgeBP { segs := [], marker1 := [(0, 1)], SR := .num 10 }).toOption.map (·.N) = some 0 := by
+  decide +kernel
+
+example (e : Element) (ch : Chan) (b : BP) (h : b.segs = []) : (e.addBluePrint ch b).err = some .value := by
+  simp [Element.addBluePrint, h]
 
 end BB.C01
